@@ -39,8 +39,9 @@ type Loop struct {
 type Options struct {
 	SysEx, TimeCode, ActiveSense bool
 	BufSize                      uint32
-	Reversed                     bool // pass the options in the opposite order (the result must not depend on it)
-	Repeat                       int  // every class option is given Repeat more times (defaults and user options concatenated): switching a class on is idempotent
+	Reversed                     bool   // pass the options in the opposite order (the result must not depend on it)
+	Earlier                      uint32 // a buffer size option given before the one that counts (the later option wins)
+	Repeat                       int    // every class option is given Repeat more times (defaults and user options concatenated): switching a class on is idempotent
 }
 
 func (o Options) List() []midi.Option {
@@ -56,7 +57,7 @@ func (o Options) List() []midi.Option {
 			l = append(l, midi.UseActiveSense())
 		}
 	}
-	if o.BufSize != 0 {
+	if o.BufSize != 0 && o.Earlier == 0 {
 		l = append(l, midi.SysExBufferSize(o.BufSize))
 	}
 	if o.Reversed {
@@ -66,6 +67,11 @@ func (o Options) List() []midi.Option {
 		for i, j := 0, len(l)-1; i < j; i, j = i+1, j-1 {
 			l[i], l[j] = l[j], l[i]
 		}
+	}
+	if o.Earlier != 0 {
+		// two buffer sizes in one list (defaults followed by the user's choice):
+		// the later one is the configured size, also when it is 0 (the default)
+		l = append(l, midi.SysExBufferSize(o.Earlier), midi.SysExBufferSize(o.BufSize))
 	}
 	return l
 }
